@@ -162,7 +162,8 @@ pub trait Handle:
     fn reindex(&self, gaps: &[(Self, isize)]) -> Self {
         let mut delta = 0;
         for (gaphandle, gapdelta) in gaps.iter() {
-            if gaphandle.as_usize() < self.as_usize() {
+            //the gap handle is the first item *after* the gap, so it moves as well
+            if gaphandle.as_usize() <= self.as_usize() {
                 delta += gapdelta;
             } else {
                 break;
